@@ -205,6 +205,25 @@ func c39Build(stack string) *c39Template {
 	dup := c39Text("dedup", 1300)
 	c39Put(ctx, s, add("bka", "dupA", "shared", dup), nil)
 	c39Put(ctx, s, add("bkb", "dupB", "shared", dup), nil)
+	// a multipart object whose first part has the same content: it shares the deduplicated part,
+	// is validated after the other two sharers and has more than one part
+	{
+		tail := c39Text("shared-multi-tail", 900)
+		o := add("bkb", "zshared-multi", "shared-multipart", append(append([]byte{}, dup...), tail...))
+		bn, key := storage.MustNewBucketName(o.B), storage.MustNewObjectKey(o.K)
+		up, err := s.CreateMultipartUpload(ctx, bn, key, nil, nil, nil)
+		if err != nil {
+			panic(err)
+		}
+		for i, p := range [][]byte{dup, tail} {
+			if _, err := s.UploadPart(ctx, bn, key, up.UploadId, int32(i+1), bytes.NewReader(p), nil); err != nil {
+				panic(err)
+			}
+		}
+		if _, err := s.CompleteMultipartUpload(ctx, bn, key, up.UploadId, nil, nil); err != nil {
+			panic(err)
+		}
+	}
 	// an object of class GLACIER (second part store on the NAMED stack)
 	gl := "GLACIER"
 	c39Put(ctx, s, add("bkb", "glacier", "single-cold", c39Text("glacier", 1400)), &gl)
